@@ -60,7 +60,7 @@ Proof.
     destruct (eqc (peek (eat_ws j)) 61).
     - destruct (_ || _) in O; [discriminate|]. inversion O; subst. pose proof (adv_len (eat_ws j)). lia.
     - destruct (eqc (peek (eat_ws j)) 0 || eqc (peek (adv (eat_ws j))) 0); [discriminate|].
-      destruct (_ || _) in O; [|discriminate]. inversion O; subst.
+      destruct (_ || _) in O; [|discriminate]. destruct (_ || _) in O; [discriminate|]. inversion O; subst.
       pose proof (adv_len (eat_ws j)). pose proof (adv_len (adv (eat_ws j))). lia. }
   subst j. pose proof (adv_len (eat_ws i)). pose proof (eat_ws_len i). 
   (* i is non-empty: otherwise the operator hits EOF *)
@@ -211,7 +211,7 @@ Proof.
     { intros nm j. revert nm. induction j as [|c j IH]; intros nm; cbn; [discriminate|].
       destruct (eqc c 0); [discriminate|]. destruct (eqc c 41); [discriminate|apply IH]. }
     destruct (number_loop [] (eat_ws k)) as [[n m]| |] eqn:N; try discriminate. exfalso. eapply G; eauto.
-  - exfalso. unfold parse_operator in O. destruct (eqc _ 61); [destruct (_ || _); discriminate|]. destruct (_ || _); [discriminate|]. destruct (_ || _); discriminate.
+  - exfalso. unfold parse_operator in O. destruct (eqc _ 61); [destruct (_ || _); discriminate|]. destruct (_ || _); [discriminate|]. destruct (_ || _); [destruct (_ || _); discriminate|discriminate].
 Qed.
 
 Lemma peek_nonempty i n : eqc (peek i) n = true -> n <> 0%N -> i <> [].
